@@ -357,7 +357,8 @@ class Verifier:
                 allnames['_ydelay'] = val.delay
                 ctx = Ctx(eng, old, new, None, {'frm': frm, 'to': k, 'spawns': list(st.spawns)})
                 for nm, cl in c.yields[k](ctx):
-                    eng.oblige(f"yield:{q}:{tag}->y{k}:{nm}", 'yield', cl)
+                    if not nm.startswith('assume:'):
+                        eng.oblige(f"yield:{q}:{tag}->y{k}:{nm}", 'yield', cl)
                 if c.step:
                     for nm, cl in c.step(ctx):
                         eng.oblige(f"step:{q}:{tag}->y{k}:{nm}", 'post', cl)
